@@ -61,7 +61,7 @@ def shards(tier, seed):
         for i in range(6):
             out.append({'name': 'prims%d' % i, 'what': 'prims-random',
                         'n_random': 120000})
-    return out
+    return common.with_configs(out, common.ALL_CONFIGS, take=2)
 
 
 def cases(shard, rnd):
@@ -254,6 +254,23 @@ def _prim(case, rec):
                       % (enc, _short(v), _short(got)), case,
                       observed=got, expected=v)
         return
+    if common.has_decimal(v):
+        for ctx in common.narrow_contexts():
+            e2 = common.encode_under_context(efn, v, ctx)
+            if not e2.ok:
+                continue                      # refusing is always allowed
+            d2 = call(dfn, e2.value)
+            try:
+                if d2.ok and not eq10(v, d2.value[1], enc in EXACT_FLOAT):
+                    rec.violation('silent:%s:decimal-context' % enc,
+                                  'under decimal context %r encode.%s(%s) '
+                                  'returned bytes that decode to %s'
+                                  % (ctx, enc, _short(v),
+                                     _short(d2.value[1])), case)
+                    return
+            except Exempt:
+                pass
+        rec.count('decimal_contexts_compared')
     rec.count('returned_and_equal')
     if rec.counters['returned_and_equal'] % 997 == 1:
         rec.sample({'encoder': enc, 'value': v,
@@ -419,6 +436,23 @@ def _prop(case, rec):
     except Exempt as ex:
         rec.count('exempt:' + str(ex))
         return
+    # the same properties object, its headers changed in place, sent again
+    if isinstance(p.headers, dict) and p.headers:
+        common.mutate_in_place(p.headers)
+        m2 = common.lib_marshal(h, 3)
+        u2 = common.lib_unmarshal(m2.value) if m2.ok else m2
+        if u2.ok:
+            try:
+                if not eq10(p.headers, u2.value[2].properties.headers):
+                    rec.violation('silent-prop:headers:stale-after-change',
+                                  'headers changed in place to %s; marshal of '
+                                  'the same object decodes to %s'
+                                  % (_short(p.headers), _short(
+                                      u2.value[2].properties.headers)), case)
+                    return
+            except Exempt:
+                pass
+            rec.count('encode_change_encode_ok')
     rec.count('returned_and_equal')
 
 
